@@ -433,7 +433,8 @@ def negate_on_texts(F, rep, rt_keeps):
                     ("-2147483648", None, None), ("0", "Integer", "0")],
         "BigInt": [("5", "BigInt", "-5"), ("-5", "BigInt", "5"), ("9999999999", "BigInt", "-9999999999"), ("-9999999999", "BigInt", "9999999999"),
                    ("2147483649", "BigInt", "-2147483649"), ("2147483648", "BigInt", "-2147483648"), ("0", "BigInt", "0")],
-        "Float": [("5.0", "Float", "-5.0"), ("-5.0", "Float", "5.0")],
+        # a float zero has a sign (the interpreter's `-z` prints -0): a folded float whose text is all zeros (`0f`, `1.5 - 1.5`) negates to `-0`
+        "Float": [("5.0", "Float", "-5.0"), ("-5.0", "Float", "5.0"), ("0", "Float", "-0"), ("00", "Float", "-00"), ("0.0", "Float", "-0.0"), ("-0", "Float", "0")],
         "Byte": [("0b101", None, None)],
     }
     n = 0
@@ -475,4 +476,4 @@ def negate_on_texts(F, rep, rt_keeps):
     rep.ob("C06.negate", "the folder's unary minus returns the text of the negated number (also for a negative operand)",
            "violated" if bad_text else ("undecided" if undec else "ok"),
            "; ".join(bad_text[:4]) or ("not evaluated: %s" % undec[:4] if undec else "%d evaluations" % n), g.span, fn=g.path, key="C06.negate|text")
-    rep.floor("C06.negate evaluations", n, 12)
+    rep.floor("C06.negate evaluations", n, 16)
